@@ -91,6 +91,10 @@ P3_CASES = [
     [0, 0, 0, 1, 1, 0, 0, 0, 1], [0, 0, 0, 0, 0, 1, 1, 1, 0],     # D=C=0 oblique
     [1, 2, 3, -1, 0.5, 2, 0, -2, 1], [2, 0, 1, 2, 3, -1, 2, -1, 4],   # generic; x=2
     [0.5, 1, -2, 3, 1, 0, -1, 1, 4],                               # y=1
+    # planes that miss the origin by less than a micrometre: D != 0, so the origin has negative sense
+    [-2e-7, 0, 0, -2e-7, 1, 0, -2e-7, 0, 1], [2e-7, 0, 0, 1 + 2e-7, 0, 1, 2e-7, 1, 0],
+    [0, -5e-7, 0, 1, -5e-7, 0, 0, -5e-7, 1], [0, 0, -3e-7, 1, 0, -3e-7, 0, 1, -3e-7],
+    [3e-9, 0, 0, 3e-9, 1, 0, 3e-9, 0, 1],
 ]
 
 
